@@ -394,6 +394,35 @@ def _named(chk, rule="SERIAL.named"):
                       why="the returned array is computed from a coordinate variable and keeps that coordinate's name: the serialiser (name in coords) stores it as "
                           "the coordinate, and the deserialised transformer carries the array's VALUES as its labels - scaling then aligns on nothing")
     chk.require(n >= 1, "no function returns an array computed from a coordinate (anchor of SERIAL.named vanished)")
+    # arrays the USER hands in and the transformer keeps as state (weights) carry whatever name the user's computation left
+    # on them - typically the name of the coordinate they were computed from (np.sqrt(np.cos(np.deg2rad(X.lat))) is called
+    # 'lat').  Stored under that name they are serialised as that coordinate: the state array is renamed at intake.
+    from .common import class_closure
+    m = 0
+    for cls in pm.classes.values():
+        gsa = cls.methods.get("get_serialization_attrs")
+        fit = cls.methods.get("fit")
+        if gsa is None or fit is None or not cls.qualname.startswith("xeofs.preprocessing"):
+            continue
+        listed = {k.arg for r in returns_of(gsa) if isinstance(r.value, ast.Call) for k in r.value.keywords if k.arg}
+        ff = FuncFacts.of(fit)
+        data_param = [p for p in fit.params if p != "self"][:1]
+        for st in ff.statements():
+            tgt = st.targets[0] if isinstance(st, ast.Assign) and len(st.targets) == 1 else st.target if isinstance(st, ast.AnnAssign) and st.value is not None else None
+            if tgt is None or not is_self_attr(tgt) or tgt.attr not in listed:
+                continue
+            ps = [p for p in ff.paths(st.value, spine_only=True, follow=True) if p.atom.kind == "param" and p.atom.name not in data_param
+                  and p.atom.name not in ("sample_dims", "feature_dims", "self") and not any(o.kind in ("attr",) and o.name in ("coords", "dims", "sizes", "indexes") for o in p.ops)]
+            ps = [p for p in ps if not any(o.kind == "arg" for o in p.ops)]
+            if not ps:
+                continue
+            m += 1
+            renamed = any(any(o.kind == "method" and o.name == "rename" for o in p.ops) for p in ps)
+            chk.check(renamed, rule, fit, st, construct=f"{cls.name}: the user's `{ps[0].atom.name}` kept as self.{tgt.attr} is renamed at intake",
+                      why=f"{cls.name}.fit keeps the user's `{ps[0].atom.name}` as the state array self.{tgt.attr} under the name it arrives with; weights computed from a coordinate are named "
+                          "like that coordinate, the serialiser (name in coords) writes them as the coordinate, and after compute() / load the scaler multiplies by an array labelled with "
+                          "its own values")
+    chk.require(m >= 1, "SERIAL.named: no user-provided array kept as serialised state found (anchor vanished)")
 
 
 def _mi_levels(chk, rule="SERIAL.multiindex.levels"):
